@@ -585,6 +585,15 @@ def execute(run, spec):
         run.state("tf_pre", (tfc, via, pre_class))
         run.state("cache_keys_before", tuple(sorted(pre)) if len(pre) < 4 else len(pre))
     # ---- final route
+    if final in ("dxf", "svg"):
+        # DXF / SVG store a fixed number of decimals: after a similarity of 1e-3 (or 1e3, where the
+        # exporters switch notation) the stored precision, not the code, decides the relative
+        # error.  The statement promises "the precision the format stores": judge the text round
+        # trips for drawings of ordinary size only (the dict route is exact and always judged).
+        det0, s0 = _mat_props(Macc)
+        if not (0.05 <= s0 <= 200.0):
+            run.skip("text round trip at extreme scale: format precision dominates")
+            final = None
     if final in ("dxf", "svg", "dict"):
         det, s = _mat_props(Macc)
         ctx = Ctx(run, D, spec, final, inherited=last_symptoms)
@@ -722,7 +731,22 @@ def workload(run):
             r = rnd.random()
             if r < 0.45:
                 nsteps = 1 if rnd.random() < 0.75 else 2
-                spec["steps"] = [_random_step(run, rnd, mats) for _ in range(nsteps)]
+                steps = [_random_step(run, rnd, mats) for _ in range(nsteps)]
+                # keep the drawing well conditioned: two extreme similarities in a row leave a
+                # drawing of size 1e-4 several units away from the origin, where the shoelace sum
+                # cancels nine digits and the exact-tolerance judgements (1e-9) test float64
+                # rounding instead of the code
+                for _try in range(20):
+                    acc = 1.0
+                    for st in steps:
+                        if st["tf"].startswith("similarity:"):
+                            acc *= float(st["tf"].split(":")[1])
+                    if 5e-4 <= acc <= 2e3:
+                        break
+                    steps[-1] = _random_step(run, rnd, mats)
+                else:
+                    steps = steps[:1]
+                spec["steps"] = steps
             r2 = rnd.random()
             if r2 < 0.12:
                 spec["final"] = "dxf"
